@@ -26,4 +26,11 @@ def run(tier):
                                k="all integers >= 0 (symbolic)"),
                    rule="one path = (configuration, call history shapes, k class)", describe=H.describe)
     jobs = [J("c01_quick", 300, 5), J("c01_nestedx", 200, 6)] if tier == "quick" else [J("c01_quick", 200, 5), J("c01_nestedx", 200, 6), J("c01_nested2", 200, 6), J("c01_nested", 300, 7), J("c01_medium", 300, 5), J("c01_matrix", 300, 6), J("c01_three", 300, 5), J("c01_thorough", 300, 5)]
-    return run_check(PID, tier, jobs, H.FUNCTIONS, ASSUMPTIONS, pre=H2.validate_environment)
+    jobs.append(Job("harness.pipeline", "c01_realrun", H.shards("c01_realrun"), 400,
+                    bounds=dict(workload="the fixture workload of C02's realrun (recorded profile events of ~40 code objects: real bytecode, real values)",
+                                rewriters=list(H.REWRITERS), flags=list(H.FLAGS), k="all integers >= 0 (symbolic)"),
+                    rule="one path = (rewriter, CLI flag, class of k) over the whole recorded workload", describe=H.describe, max_samples=2, validate_limit=8))
+    return run_check(PID, tier, jobs, H.FUNCTIONS, ASSUMPTIONS + [
+        "c01_realrun: the call history is the one CPython really produced for the fixture workload (recorded natively in this process before the "
+        "exploration), so generators delegating with `yield from`, coroutines that suspend, exception exits and every parameter kind reach the "
+        "tracer with their real bytecode offsets"], pre=H2.validate_environment)
